@@ -56,7 +56,7 @@ ASSUMPTIONS = ["the parsing half of this property is input space; the simulator 
                "sampling, not proof"]
 BUDGETS = {"quick": (36000, 90), "thorough": (2500000, 285)}
 TOP = 1.0 - 2.0 ** -53
-SHAPES = ["dict", "dict_lower", "dict_upper", "dict_mixed", "pairs", "getter", "response", "attr_str", "headers_and_attr",
+SHAPES = ["dict", "dict_lower", "dict_upper", "dict_mixed", "pairs", "pairs_iter", "getter", "response", "attr_str", "headers_and_attr",
           "empty_dict_and_response", "empty_list_and_response",
           "dict", "pairs", "getter", "response",   # (weights)
           "hostile_getter", "hostile_items", "hostile_mapping", "non_iterable", "bad_pairs", "hostile_str", "hostile_response"]
@@ -179,7 +179,7 @@ def gen(seed, tier="quick"):
             "clock": {"base_us": r.choice([0, 10**9]), "skew_us": r.choice([1_700_000_000_000_000, 1_700_000_000_000_000 + r.randrange(0, 10**12), 946_684_800_000_000])},
             # a per-attempt timeout that never fires (sync: real worker thread, async: wait_for on the SimLoop)
             "attempt_timeout_us": r.choice([None, None, None, None, 20_000_000, 3_600_000_000]),
-            "reuse_exc": r.random() < 0.15}
+            "reuse_exc": r.random() < 0.15, "int_hints": r.random() < 0.15}
 
 
 def build_exc(att, wall_us):
@@ -263,6 +263,8 @@ def build_exc(att, wall_us):
         e.headers = {"Content-Type": "text/plain", "rEtRy-AfTeR": header, "X": "1"}
     elif shape == "pairs":
         e.headers = [("Content-Type", "x"), ("retry-After", header)]
+    elif shape == "pairs_iter":
+        e.headers = iter([("content-type", "x"), ("retry-after", header), ("x-request-id", "1")])   # one-shot iterator of pairs (lazily decoded headers)
     elif shape == "getter":
         e.headers = Getter({"Retry-After": header})
     elif shape == "response":
@@ -304,6 +306,10 @@ def execute(scn):
         if isinstance(c, Classification):
             rec["hint"] = c.retry_after_s
             rec["klass"] = c.klass.name
+            h = c.retry_after_s
+            if scn.get("int_hints") and isinstance(h, float) and h == h and abs(h) < 1e15 and h == int(h):
+                # a caller-written classifier layered on top that stores whole seconds as a Python int
+                c = Classification(klass=c.klass, retry_after_s=int(h), details=c.details)
         else:
             rec["hint"] = None
             rec["klass"] = c.name
